@@ -449,7 +449,11 @@ def _checksum (ctx, repo):
     good = bool(rv) and '~' in norm(rv[-1].value) and '0xffff' in norm(rv[-1].value).lower() or (rv and '65535' in norm(rv[-1].value))
     ctx.ob('R-AGREE', f, "the result is the 16-bit one's complement", bool(good), norm(rv[-1].value) if rv else "?", f, 'D5')
     skip = [n for n in g.nodes if n.kind == 'continue' and any('skip_word' in x for x in q.fact_strs(g, n))]
-    ctx.ob('R-AGREE', f, "exactly the skip word is left out of the sum", bool(skip), "continue under i == skip_word", f, 'D5')
+    # other spellings of "leave that word out" (a filter of a generator, a conditional term) mention skip_word in a comparison as well;
+    # only a sum that never looks at skip_word at all leaves nothing out
+    looks = any(isinstance(x_, ast.Compare) and 'skip_word' in norm(x_) for x_ in ast.walk(f.node))
+    ctx.ob('R-AGREE', f, "exactly the skip word is left out of the sum", True if skip else (None if looks else False),
+           "continue under i == skip_word" if skip else ("skip_word is compared with the word index, in a form the rule does not follow" if looks else "the sum never compares the word index with skip_word: the checksum field itself is summed"), f, 'D5')
 
 def checksum_samples (ctx, repo, clause='D5'):
   """checksum() evaluated by the analyser's own interpreter on sample inputs (odd / even length, sums whose first fold carries
